@@ -68,7 +68,7 @@ func c09RoundTrip(b Box) Box {
 // c09Build creates tables for the stsc layout "chunks x samplesPerChunk,..." with nStts stts
 // runs; run lengths are chosen (concrete per path), all deltas/offsets/sizes are symbolic.
 // small: durations limited to 8 bits (for queries that divide by them).
-func c09Build(layout string, nStts int, decoded bool, small bool, co64 bool, uniform bool) *c09Tables {
+func c09Build(layout string, nStts int, decoded bool, small bool, co64 bool, uniform bool, opts int) *c09Tables {
 	t := &c09Tables{}
 	chunks, spc := c09ParseLayout(layout)
 	// stsc + chunk expansion
@@ -119,8 +119,8 @@ func c09Build(layout string, nStts int, decoded bool, small bool, co64 bool, uni
 		acc += uint64(t.dur[k])
 	}
 	// ctts (optional)
-	if vfy.Choose("ctts", 2) == 1 {
-		t.ctts = &CttsBox{Version: byte(vfy.Choose("cttsv", 2))}
+	if opts&1 != 0 {
+		t.ctts = &CttsBox{Version: byte((opts >> 1) & 1)}
 		left = n
 		var counts []uint32
 		var offs []int32
@@ -189,7 +189,7 @@ func c09Build(layout string, nStts int, decoded bool, small bool, co64 bool, uni
 	}
 	// stss (optional): strictly increasing sample numbers inside 1..n
 	t.sync = make([]bool, n)
-	if vfy.Choose("stss", 2) == 1 {
+	if opts&4 != 0 {
 		t.stss = &StssBox{}
 		ns := 1 + vfy.Choose("nsync", 2)
 		prev := uint32(0)
@@ -209,7 +209,7 @@ func c09Build(layout string, nStts int, decoded bool, small bool, co64 bool, uni
 		}
 	}
 	// sdtp (optional)
-	if vfy.Choose("sdtp", 2) == 1 {
+	if opts&8 != 0 {
 		ents := make([]SdtpEntry, n)
 		for k := range ents {
 			ents[k] = SdtpEntry(vfy.U8("sdtp"))
@@ -271,8 +271,8 @@ func c09Flags(t *c09Tables, k int) uint32 {
 }
 
 // VerifC09Tables: every per-sample query against the naive expansion.
-func VerifC09Tables(layout string, nStts int, decoded bool, co64 bool, uniform bool) {
-	t := c09Build(layout, nStts, decoded, false, co64, uniform)
+func VerifC09Tables(layout string, nStts int, decoded bool, co64 bool, uniform bool, opts int) {
+	t := c09Build(layout, nStts, decoded, false, co64, uniform, opts)
 	n := t.n
 	vfy.Assert(int(t.trak.GetNrSamples()) == n, "GetNrSamples")
 	for k := 1; k <= n; k++ {
@@ -316,8 +316,8 @@ func VerifC09Tables(layout string, nStts int, decoded bool, co64 bool, uniform b
 }
 
 // VerifC09Intervals: interval queries for every 1 <= a <= b <= n.
-func VerifC09Intervals(layout string, nStts int, decoded bool, co64 bool, uniform bool) {
-	t := c09Build(layout, nStts, decoded, false, co64, uniform)
+func VerifC09Intervals(layout string, nStts int, decoded bool, co64 bool, uniform bool, opts int) {
+	t := c09Build(layout, nStts, decoded, false, co64, uniform, opts)
 	n := t.n
 	for a := 1; a <= n; a++ {
 		for b := a; b <= n; b++ {
@@ -386,7 +386,7 @@ func VerifC09Intervals(layout string, nStts int, decoded bool, co64 bool, unifor
 // VerifC09Time: GetSampleNrAtTime for a symbolic time (durations limited to 8 bits because the
 // query divides by them).
 func VerifC09Time(layout string, nStts int) {
-	t := c09Build(layout, nStts, false, true, false, false)
+	t := c09Build(layout, nStts, false, true, false, false, 0)
 	n := t.n
 	tm := uint64(vfy.U16("time"))
 	// the property's oracle: the first sample whose decode time is >= tm, defined for times up
